@@ -122,7 +122,7 @@ pub fn run_c15(cx: &mut Cx) {
 fn grind(cx: &mut Cx, issuer: NodeId, holder: NodeId, verifier: NodeId, key: Arc<KeyMat>) {
     let target = cx.run_index / 8;
     let hide = target % 2 == 1; // with one hidden attribute the per-attribute range proof is part of the frame
-    let cap = if cx.thorough { 3000 } else { 700 };
+    let cap = if LN > 1024 { 60 } else if cx.thorough { 3000 } else { 700 }; // (seconds per generation at 2048 bits)
     let msgs = vec![gen_attr(cx.run_seed, 0, 0).value];
     let hidden: Vec<usize> = if hide { vec![0] } else { vec![] };
     let (k1, m1, h1) = (key.clone(), msgs.clone(), hidden.clone());
